@@ -228,6 +228,13 @@ impl<Data> IoLoopInner for LoopInner<'_, Data> {
         if let Ok(slot) = self.sources.borrow_mut().get_mut(token.inner) {
             slot.source = None;
         }
+        // The IO object may outlive the adapter (`into_inner()`, or an adapter over a borrowed
+        // fd): stop polling it, otherwise it stays in the poller for as long as it is open and
+        // cannot be adapted or inserted again
+        if let Ok(poll) = self.poll.try_borrow_mut() {
+            let fd = dispatcher.borrow().fd;
+            let _ = poll.unregister(unsafe { BorrowedFd::borrow_raw(fd) });
+        }
     }
 }
 
